@@ -315,10 +315,12 @@ fn check_program(ctx: &mut Ctx, prog: &program::Program, pidx: u64, stepper: Ste
     t.delivered += delivered as u64;
   }
   // --- rule 6: run_frame terminates within two frame periods plus one block (in emulated time)
-  for _ in 0..3 {
+  // (the program with the 12 000-instruction block gets more calls and a larger "one block")
+  let long_blocks = prog.description.starts_with("cache pressure");
+  for _ in 0..(if long_blocks { 40 } else { 3 }) {
     let pc = core.registers.ip as u16;
     // "plus one block": no block of the generated programs costs more than 2000 machine cycles
-    let bound = 2 * FRAME + 4 * 2000;
+    let bound = 2 * FRAME + 4 * (if long_blocks { 13_000 } else { 2000 });
     ctx.intent(&[pidx, 1 << 40, pc as u64, stepper as u64]);
     verif::start(false);
     verif::set_deliver_limit(bound + 4 * FRAME);
@@ -379,6 +381,17 @@ pub fn run(ctx: &mut Ctx) {
     if ctx.want_sample() && p % 37 == 5 {
       ctx.sample(&format!("program #{} (cart type {:02X}, {} banks): {} | per step: C(m) D(4m) S [V], m = static block cost (+5 after a dispatch), timer phase and shadow LCD advanced by D; then 3 x run_frame()", p, ct, prog.banks, prog.description.trim()));
     }
+  }
+  // one more program: blocks of up to 12 000 machine cycles (longer than a scan line, than
+  // the vertical blank, than most of a frame) - the frame loop must cope with a block
+  // that carries the LCD across any boundary it is waiting for
+  if ctx.mine(nprog) {
+    let (image, description) = crate::gen::pressure::cache_pressure_image();
+    let prog = program::Program { image, cart_type: 0x13, banks: 128, features: Default::default(), description };
+    for &st in [Stepper::Update, Stepper::RunCodeBlock].iter() {
+      check_program(ctx, &prog, nprog, st, 400, &mut t);
+    }
+    ctx.distinct_key(hash_words(&[nprog, 0xb10c]));
   }
   ctx.count("evaluations", t.steps_run + t.steps_suspended);
   ctx.count("steps:running", t.steps_run);
